@@ -132,12 +132,32 @@ int main(void) {
             }
             free(src);
         } else if (k == 'S') {
-            size_t n; long buflen, off, size;
-            sscanf(line + 2, "%ld %ld %ld %65000s", &buflen, &off, &size, hexbuf);
+            size_t n; long buflen, off, size; int late = 0;
+            sscanf(line + 2, "%ld %ld %ld %65000s %d", &buflen, &off, &size, hexbuf, &late);
             unsigned char *src = unhex(hexbuf, &n);
             unsigned char *buf = malloc(buflen);
             for (long i = 0; i < buflen; i++) buf[i] = (unsigned char)(0xC0 + i % 16);
-            expect(fs, will_set_contents_of_output_parameter(p, src, size));
+            if (late == 0) {
+                expect(fs, will_set_contents_of_output_parameter(p, src, size));
+            } else {
+                /* the data the pointer designates is what counts when the mocked function is called (the guide:
+                   "Variables that are to be sent to a mocked function MUST be live at the call"): the bytes are
+                   produced after the expectation was declared (1), or refreshed between two calls that one
+                   standing expectation serves (2) */
+                unsigned char *keep = malloc(n + 1);
+                memcpy(keep, src, n);
+                for (size_t i = 0; i < n; i++) src[i] = (unsigned char)~keep[i];
+                if (late == 1) {
+                    expect(fs, will_set_contents_of_output_parameter(p, src, size));
+                } else {
+                    unsigned char *scratch = malloc(buflen + 1);
+                    always_expect(fs, will_set_contents_of_output_parameter(p, src, size));
+                    fs(scratch + off);
+                    free(scratch);
+                }
+                memcpy(src, keep, n);
+                free(keep);
+            }
             fs(buf + off);
             printf("S "); phex(buf, buflen);
             free(buf); free(src);
